@@ -36,8 +36,8 @@ def gen_case(rng):
         W = k * L
         sc = rng.choice(divisors(k))
         rid = "r%d" % j
-        if rng.random() < 0.25:
-            kind = rng.randint(0, 4)
+        if rng.random() < 0.35:
+            kind = rng.randint(0, 8)
             if kind == 0:
                 sc2, W2 = 0, W
             elif kind == 1:
@@ -46,8 +46,17 @@ def gen_case(rng):
                 sc2, W2 = k + 1, W if W % (k + 1) else W + 1
             elif kind == 3:
                 W2 = rng.choice([W + L, W * 2 + 1, iv + L, iv * 2]); sc2 = 1
-            else:
+            elif kind == 4:
                 sc2, W2 = W if L > 1 else k * 2 + 1, W   # reader bucket shorter than inner bucket
+            elif kind >= 7 and [d for d in divisors(iv) if d % L and d > L]:
+                # a window that divides the array's interval and is longer than a bucket, but is not made of whole buckets
+                W2 = rng.choice([d for d in divisors(iv) if d % L and d > L])
+                sc2 = rng.choice([c for c in divisors(W2) if (W2 // L) % c == 0] or [1])
+            else:
+                # anywhere in the decision table of the reuse check: a window that divides the array's interval (or not), cut
+                # into any number of buckets; e.g. 1x1250 over 20x500 divides the interval but is not made of whole buckets (seed C02-e)
+                W2 = rng.choice(divisors(iv) + [rng.randint(1, 2 * iv), L + 1, iv // 2 + 1])
+                sc2 = rng.choice([1, 1, 2, 3, 4, 5, 8] + divisors(W2)[:6])
             ops.append("reader id=x%d sc=%d iv=%d" % (j, sc2, W2))
         ops.append("reader id=%s sc=%d iv=%d" % (rid, sc, W))
         readers.append((rid, sc, W))
